@@ -5,7 +5,7 @@ import ChythonModel.Proofs.C05Rules
 import ChythonModel.Proofs.C05Thiele
 import ChythonModel.Proofs.C05Round
 import ChythonModel.Proofs.C05Prepare
-import ChythonModel.Proofs.C05SearchSound
+import ChythonModel.Proofs.C05SearchNoDup
 /-!
 # C05 — Kekulé and aromatic forms describe the same molecule; conversions are stable
 
@@ -33,7 +33,8 @@ that an accepted output satisfies the declarative clauses of the property, for e
   its decrease are theorems here), every path it yields has `size` entries, the pyridine-over-pyrrole buffer only
   reorders, and — **soundness** — on every component `__prepare_rings` can hand over that has no ambiguous
   ("pyrrole or pyridine") atom, every yielded path assigns every skeleton bond exactly once, order 1 or 2, with the
-  double bonds a perfect matching of the atoms outside `double_bonded` that avoids `double_bonded`.
+  double bonds a perfect matching of the atoms outside `double_bonded` that avoids `double_bonded`; on the same
+  components no Kekulé form is yielded twice.
 -/
 namespace ChythonModel.Props.C05
 open ChythonModel.Model ChythonModel.Model.C05 ChythonModel.Model.C05T ChythonModel.Spec.Kekule ChythonModel.Proofs.C05
@@ -453,12 +454,19 @@ theorem search_yields_are_complete_paths (rings : Adj) (db pyr : List Nat) (buf 
 /-- the decidable domain test the driver evaluates for every request is the domain of the soundness theorem -/
 theorem search_domain_check_sound (rings : Adj) (h : graphOKb rings = true) : GraphOK rings := graphOKb_sound h
 
-/-- **Soundness, full statement**: on every component `__prepare_rings` can hand over, with any `double_bonded` /
-    `pyrroles`, every yielded path assigns every skeleton bond exactly once (order 1 or 2) and its double bonds are a
-    matching in which an atom of `double_bonded` has none, an atom of `pyrroles` at most one and every other atom
-    exactly one. -/
+/-- **Soundness, full statement**: on every component `__prepare_rings` can hand over, with any `double_bonded` and
+    any `pyrroles` whose members outside `double_bonded` have two ring neighbours, every yielded path assigns every
+    skeleton bond exactly once (order 1 or 2) and its double bonds are a matching in which an atom of `double_bonded` has
+    none, an atom of `pyrroles` at most one and every other atom exactly one.
+    (The restriction on `pyrroles` is necessary: with an ambiguous atom that has *three* ring neighbours — a ring-fusion
+    P / As / B⁻, which design/C05.md §4 records as outside the property's domain — both the code and this model yield,
+    e.g. for `rings = {3: [14, 5], 14: [10, 12, 3], 5: [3, 12], 10: [14, 17, 20], 12: [14, 5, 4], 17: [20, 10, 4],
+    20: [17, 10, 4], 4: [12, 17, 20]}`, `double_bonded = {12}`, `pyrroles = {4, 5}`, the path
+    `14,12,1 10,14,2 20,10,1 17,20,2 10,17,1 4,17,1 4,20,1 3,14,1 5,3,2 12,4,1 12,4,1`, which assigns 12–4 twice and
+    12–5 never; the harness keeps this input as a regression case of the verbatim tie.) -/
 def SearchSound : Prop :=
   ∀ (rings : Adj) (db pyr : List Nat) (buf limit : Nat), GraphOK rings →
+    (∀ v ∈ pyr, db.contains v = false → (nbr rings v).length = 2) →
     ∀ y ∈ (kekuleComponent rings db pyr buf limit).1,
       (∀ x ∈ y, x.1 ∈ nbr rings x.2.1 ∧ (x.2.2 = 1 ∨ x.2.2 = 2)) ∧ (y.map key).Nodup ∧
       (∀ v w, w ∈ nbr rings v → ukey v w ∈ y.map key) ∧
@@ -467,9 +475,9 @@ def SearchSound : Prop :=
 
 /-- **Soundness, proved part**: the full statement for components without ambiguous atoms (`pyrroles = ∅`: every ring
     atom's role is fixed by the classification — all molecules whose ring hetero atoms state their hydrogens).
-    Excluded: components with a "pyrrole or pyridine" atom; for those the same statement is evaluated on every output
-    of every run (checker `kekn` on the molecule, brute force on the component), but the invariant used here does not
-    hold (such atoms are legitimately visited twice). -/
+    Excluded: components with a "pyrrole or pyridine" atom; for those (two ring neighbours) the same statement is
+    evaluated on every output of every run (checker `kekn` on the molecule, brute force on the component), but the
+    invariant used here does not hold (such atoms are legitimately visited twice). -/
 theorem search_sound_partial (rings : Adj) (db : List Nat) (buf limit : Nat) (G : GraphOK rings) :
     ∀ y ∈ (kekuleComponent rings db [] buf limit).1,
       (∀ x ∈ y, x.1 ∈ nbr rings x.2.1 ∧ (x.2.2 = 1 ∨ x.2.2 = 2)) ∧ (y.map key).Nodup ∧
@@ -487,6 +495,7 @@ theorem search_sound_partial (rings : Adj) (db : List Nat) (buf limit : Nat) (G 
     miss forms, 60 raise although a form exists — see design/C05.md.) -/
 def SearchComplete : Prop :=
   ∀ (rings : Adj) (db pyr : List Nat) (buf limit : Nat), GraphOK rings →
+    (∀ v ∈ pyr, db.contains v = false → (nbr rings v).length = 2) →
     (db ≠ [] ∨ ∃ p ∈ rings, p.2.length = 2 ∧ pyr.contains p.1 = false) →
     (kekuleComponent rings db pyr buf limit).2 ≠ .more → (∀ e, (kekuleComponent rings db pyr buf limit).2 ≠ .crashed e) →
     ∀ f : Nat × Nat → Nat,
@@ -496,12 +505,28 @@ def SearchComplete : Prop :=
         if db.contains v = true then d = 0 else if pyr.contains v = true then d ≤ 1 else d = 1) →
       ∃ y ∈ (kekuleComponent rings db pyr buf limit).1, ∀ x ∈ y, x.2.2 = f (key x)
 
-/-- **No duplicates, full statement** (not proved; evaluated like `SearchComplete`): two different positions of the
-    yield sequence never carry the same set of double bonds. -/
+/-- **No duplicates, full statement**: any two yields (two different positions of the sequence `enumerate_kekule`
+    walks through) give some skeleton bond different orders (`Differ`) — no Kekulé form comes twice. -/
 def SearchNoDup : Prop :=
   ∀ (rings : Adj) (db pyr : List Nat) (buf limit : Nat), GraphOK rings →
-    ((kekuleComponent rings db pyr buf limit).1.map fun y =>
-      (y.filter (·.2.2 == 2)).map key |>.mergeSort fun a b => decide (a.1 < b.1 ∨ (a.1 = b.1 ∧ a.2 ≤ b.2))).Nodup
+    (∀ v ∈ pyr, db.contains v = false → (nbr rings v).length = 2) →
+    (kekuleComponent rings db pyr buf limit).1.Pairwise Differ
+
+/-- **No duplicates, proved part**: the full statement for components without ambiguous atoms. Proof: two
+    continuations of one plan always disagree about the order of a pushed bond (`plan_conflict`, any input), every path
+    found from a state carries all assignments of that state (`Ext`, using the invariant of `search_sound_partial`), and
+    paths found from different initial levels differ at the start atom (which has exactly one double bond).
+    Excluded: `pyrroles ≠ ∅` (evaluated per run against the independent enumeration). -/
+theorem search_no_dup_partial (rings : Adj) (db : List Nat) (buf limit : Nat) (G : GraphOK rings) :
+    (kekuleComponent rings db [] buf limit).1.Pairwise Differ :=
+  component_nodup G db buf limit
+
+/-- the alternatives opened at one choice point always disagree about a pushed bond (any input, ambiguous atoms
+    included): the reason why backtracking never reaches the same assignment twice -/
+theorem search_alternatives_conflict (c : Ctx) (atom prev bond len : Nat) (hashed : Nat → Bool) (ins0 : Option Entry)
+    (clos : List Nat) (brs : List (List Entry)) (h : plan c atom prev bond hashed len = .go ins0 clos brs) :
+    brs.Pairwise Conflict :=
+  plan_conflict h
 
 /-- naphthalene as `__kekule_full` builds the component dict -/
 def naphthaleneRings : Adj :=
